@@ -32,11 +32,14 @@ CONSTANTS FieldNums,       \* numbers of the declarable body fields, in declarat
           CompNames,       \* names of the components that can be added, in order
           MaxDepth, MaxItems,
           MaxSteps,        \* bound on the number of placement steps (declarations and container creation are not counted)
-          FullSetup,       \* TRUE: members are placed only when every declarable field, message and component exists
+          MinSteps,        \* Finish needs at least this many placement steps (simulation: keep walking)
           Variants,        \* reuse variants enabled: subset of {"same","flags","order","members","nested"}
           Dev
 \* FieldOptions(i): the [type, realm] choices for the i-th declared field (defined by the MC module)
 CONSTANT FieldOptions(_)
+\* Pick(X): the candidates an action considers out of X - all of them (exhaustive search) or one drawn at random
+\* (simulation of a large universe, where computing every successor would be wasteful)
+CONSTANT Pick(_)
 
 VARIABLES S, hist, done, cur
 vars == <<S, hist, done, cur>>
@@ -92,31 +95,36 @@ UserOk(X) == \A i \in (NSkelMsgs + 1)..Len(X.msgs) :
                 LET b == Members(X, X.msgs[i].items) IN
                 /\ NoDup(SkelNums \o AllNumsSeq(b)) /\ GroupsOk(b) /\ PairsOkDeep(X, b, TRUE) /\ DepthOf(b) <= MaxDepth
 DeepOk(X) == \A c \in Containers(X) : DepthOf(c[2]) <= MaxDepth
-\* Canonical construction order (it only removes permutations that build the same schema): fields are declared
-\* first, then messages and components are created, then members are placed container by container (components
-\* before messages, in index order); inside one container members are appended in document order anyway.
-NoContainers == Len(S.msgs) = NSkelMsgs /\ S.comps = <<>>
-NothingPlaced == (\A i \in UserMsgs : S.msgs[i].items = <<>>) /\ (\A i \in DOMAIN S.comps : S.comps[i].items = <<>>)
+\* Canonical construction order (it only removes permutations that build the same schema): all declarable fields
+\* are declared first, then the components and the messages are created, then members are placed container by
+\* container (components before messages, in index order); inside one container members are appended in document
+\* order anyway.  Smaller schemas arise because Finish drops what was never filled in.
+AllDeclared == NBody = Len(FieldNums)
 Rank(t) == IF t.w = "c" THEN t.i ELSE Len(CompNames) + t.i
 SetupDone == NBody = Len(FieldNums) /\ Len(S.msgs) - NSkelMsgs = Len(MsgTypes) /\ Len(S.comps) = Len(CompNames)
 NPlaced == Cardinality({ i \in DOMAIN hist : hist[i] \notin {"DeclField", "AddMessage", "AddAdminMessage", "AddComponent"} })
 Step(X, label, rank) ==
     /\ ~done /\ rank >= cur
-    /\ rank > 0 => (NPlaced < MaxSteps /\ (FullSetup => SetupDone))
+    /\ rank > 0 => (NPlaced < MaxSteps /\ SetupDone)
     /\ UserOk(X)
     /\ S' = X /\ hist' = Append(hist, label) /\ done' = FALSE /\ cur' = rank
 
+\* candidates worth trying: containers not yet passed by the construction order, with room; fields the container's
+\* message does not use yet
+OpenTargets == { t \in Targets : Rank(t) >= cur /\ GoodTarget(t) }
+FreeFields(t) == BodyFields \ Range(AllNumsSeq(Members(S, TItems(t))))
+
 \* ---- construction actions ------------------------------------------------------------------------------
 DeclField ==
-    /\ NBody < Len(FieldNums) /\ NoContainers
-    /\ \E o \in FieldOptions(NBody + 1) :
+    /\ NBody < Len(FieldNums)
+    /\ \E o \in Pick(FieldOptions(NBody + 1)) :
           LET num == FieldNums[NBody + 1] IN
           Step([S EXCEPT !.fields = Append(@, [num |-> num, name |-> "F" \o ToString(num), type |-> o.type, vals |-> o.vals])],
                "DeclField", 0)
 
 MsgNameOf(mt) == "Msg" \o mt
 AddMessage ==
-    /\ Len(S.msgs) - NSkelMsgs < Len(MsgTypes) /\ NothingPlaced
+    /\ Len(S.msgs) - NSkelMsgs < Len(MsgTypes) /\ AllDeclared /\ Len(S.comps) = Len(CompNames)
     /\ LET mt == MsgTypes[Len(S.msgs) - NSkelMsgs + 1]
            i35 == CHOOSE i \in DOMAIN S.fields : S.fields[i].num = 35 IN
        Step([S EXCEPT !.msgs = Append(@, [mt |-> mt, name |-> MsgNameOf(mt), admin |-> mt \in AdminTypes, items |-> <<>>]),
@@ -124,24 +132,23 @@ AddMessage ==
             IF mt \in AdminTypes THEN "AddAdminMessage" ELSE "AddMessage", 0)
 
 AddComponent ==
-    /\ Len(S.comps) < Len(CompNames) /\ NothingPlaced
+    /\ Len(S.comps) < Len(CompNames) /\ AllDeclared
     /\ Step([S EXCEPT !.comps = Append(@, [name |-> CompNames[Len(S.comps) + 1], items |-> <<>>])], "AddComponent", 0)
 
 PutField ==
-    \E t \in Targets, f \in BodyFields, r \in BOOLEAN :
-        /\ GoodTarget(t)
+    \E t \in Pick(OpenTargets) : \E f \in Pick(FreeFields(t)), r \in Pick(BOOLEAN) :
         /\ Step(Put(t, FieldE(f, r)), IF t.p = <<>> THEN "PutField" ELSE "PutFieldInGroup", Rank(t))
 
 UseComponent ==
-    \E t \in Targets, c \in DOMAIN S.comps, r \in BOOLEAN :
-        /\ t.w = "m" /\ GoodTarget(t)
+    \E t \in Pick({ x \in OpenTargets : x.w = "m" }), c \in Pick(DOMAIN S.comps), r \in Pick(BOOLEAN) :
+        /\ TRUE
         /\ S.comps[c].items # <<>>
         /\ Step(Put(t, CompE(S.comps[c].name, r)), IF t.p = <<>> THEN "UseComponent" ELSE "UseComponentInGroup", Rank(t))
 
 \* a new group needs a count field (declared now, of type NUMINGROUP) and a first member
 AddGroup ==
-    \E t \in Targets, f \in BodyFields, r, rf \in BOOLEAN :
-        /\ GoodTarget(t) /\ NCount < Len(CountNums)
+    \E t \in Pick(OpenTargets) : \E f \in Pick(FreeFields(t)), r \in Pick(BOOLEAN), rf \in {TRUE} :
+        /\ NCount < Len(CountNums)
         /\ rf         \* the first member of a new group is mandatory (ReuseCountField "flags" makes it optional)
         /\ LET num == CountNums[NCount + 1]
                X == [Put(t, GroupE(num, r, <<FieldE(f, rf)>>)) EXCEPT
@@ -167,54 +174,31 @@ VariantSubs(sub) ==
                        : j \in { q \in DOMAIN sub : sub[q].k = "g" } }
           ELSE {})
 ReuseCountField ==
-    \E i1, i2 \in UserMsgs, r \in BOOLEAN :
-        /\ i1 < i2 /\ Len(S.msgs[i2].items) < MaxItems
-        /\ \E j \in DOMAIN S.msgs[i1].items :
-              /\ S.msgs[i1].items[j].k = "g"
-              /\ \E var \in VariantSubs(S.msgs[i1].items[j].sub) :
+    \E i1 \in UserMsgs, i2 \in Pick({ i \in UserMsgs : Len(CompNames) + i >= cur /\ Len(S.msgs[i].items) < MaxItems }), r \in Pick(BOOLEAN) :
+        /\ i1 < i2
+        /\ \E j \in Pick({ q \in DOMAIN S.msgs[i1].items : S.msgs[i1].items[q].k = "g" }) :
+              /\ \E var \in Pick(VariantSubs(S.msgs[i1].items[j].sub)) :
                     Step([S EXCEPT !.msgs[i2].items = Append(@, GroupE(S.msgs[i1].items[j].n, r, var.sub))],
                          "ReuseCountField_" \o var.v, Len(CompNames) + i2)
 
-\* the schema is complete: every added message and component has members, every component is used
-Complete ==
-    /\ Len(S.msgs) > NSkelMsgs
-    /\ \A i \in UserMsgs : S.msgs[i].items # <<>>
-    /\ \A c \in DOMAIN S.comps : /\ S.comps[c].items # <<>>
-                                 /\ \E i \in UserMsgs : \E p \in ItemPaths(S.msgs[i].items) :
-                                        \E j \in DOMAIN ItemsAt(S.msgs[i].items, p) :
-                                            ItemsAt(S.msgs[i].items, p)[j] \in {CompE(S.comps[c].name, TRUE), CompE(S.comps[c].name, FALSE)}
-Finish == ~done /\ Complete /\ done' = TRUE /\ UNCHANGED <<S, hist, cur>>
+\* Finish: what was never filled in is dropped (messages and components without members); at least one added
+\* message must remain
+KeptMsgs == SelectSeq(S.msgs, LAMBDA m : m.items # <<>>)
+Pruned == LET i35 == CHOOSE i \in DOMAIN S.fields : S.fields[i].num = 35 IN
+          [S EXCEPT !.msgs = KeptMsgs,
+                    !.comps = SelectSeq(@, LAMBDA c : c.items # <<>>),
+                    !.fields[i35].vals = SelectSeq(@, LAMBDA v : \E j \in DOMAIN KeptMsgs : KeptMsgs[j].mt = v[1])]
+Finish == /\ ~done /\ NPlaced >= MinSteps
+          /\ Len(KeptMsgs) > NSkelMsgs
+          /\ S' = Pruned /\ done' = TRUE /\ UNCHANGED <<hist, cur>>
 
 Init == S = Skeleton /\ hist = <<>> /\ done = FALSE /\ cur = 0
 Next == DeclField \/ AddMessage \/ AddComponent \/ PutField \/ UseComponent \/ AddGroup \/ ReuseCountField \/ Finish
 
-\* ---- the compiler's group table ---------------------------------------------------------------------------
-Key(ms) == IF "hash_identity" \in Dev THEN GroupHash(ms)
-           ELSE IF "flags_order_not_in_identity" \in Dev THEN MemberStruct(ms)
-           ELSE ms
-\* registration order: header, trailer, messages in document order; inside a container depth first, a group after
-\* its nested groups (parse_groups registers a definition when its nested groups have been parsed)
-RECURSIVE RegOf(_)
-RegOf(ms) == IF ms = <<>> THEN <<>>
-             ELSE (IF Head(ms).g THEN RegOf(Head(ms).sub) \o << [n |-> Head(ms).n, sub |-> Head(ms).sub] >> ELSE <<>>) \o RegOf(Tail(ms))
-RegSeq(X) == RegOf(Members(X, X.hdr)) \o RegOf(Members(X, X.trl))
-             \o SeqCat([i \in DOMAIN X.msgs |-> RegOf(Members(X, X.msgs[i].items))])
-\* the definition whose traits an occurrence (count field n, members ms) is given
-Winner(X, n, ms) ==
-    LET reg == RegSeq(X)
-        first == CHOOSE i \in DOMAIN reg : /\ reg[i].n = n /\ Key(reg[i].sub) = Key(ms)
-                                           /\ \A j \in 1..(i - 1) : ~(reg[j].n = n /\ Key(reg[j].sub) = Key(ms))
-    IN reg[first].sub
-\* members as the generated code presents them: a group's traits are its winner's, recursively
-RECURSIVE Compiled(_, _)
-Compiled(X, ms) == [i \in DOMAIN ms |-> IF ms[i].g THEN [ms[i] EXCEPT !.sub = Compiled(X, Winner(X, ms[i].n, ms[i].sub))] ELSE ms[i]]
-
+\* ---- properties (the compiler's group table is modelled in SchemaOps: Key, Winner, Compiled) ---------------------
 Valid == done => (ValidSchema(S) /\ DeepOk(S))
-OwnTraits == done => \A c \in Containers(S) : SameDef(Compiled(S, c[2]), c[2])
-DistinctDefsDistinctTraits ==
-    done => \A o1, o2 \in AllGroupOccs(S) :
-        (o1[2][Len(o1[2])] = o2[2][Len(o2[2])] /\ MemberStruct(o1[3]) # MemberStruct(o2[3]))
-            => Winner(S, o1[2][Len(o1[2])], o1[3]) # Winner(S, o2[2][Len(o2[2])], o2[3])
+OwnTraits == done => OwnTraitsOf(Dev, S)
+DistinctDefsDistinctTraits == done => DistinctDefsOf(Dev, S)
 
 \* ---- witnesses (must be violated: the family contains such schemas) and export -----------------------------
 NoTwoDefinitions == ~\E o1, o2 \in AllGroupOccs(S) : o1[2][Len(o1[2])] = o2[2][Len(o2[2])] /\ MemberStruct(o1[3]) # MemberStruct(o2[3])
@@ -222,7 +206,7 @@ NoDepth3 == \A c \in Containers(S) : DepthOf(c[2]) < 3
 NoComponentGroup == ~(done /\ \E i \in DOMAIN S.comps : \E j \in DOMAIN S.comps[i].items : S.comps[i].items[j].k = "g")
 
 \* export: the skeleton once (from the initial state), then every completed schema as what was added to it
-UserPart == [fields |-> SelectSeq(S.fields, LAMBDA f : f.num \in Range(FieldNums) \cup Range(CountNums)),
+UserPart == [fields |-> SelectSeq(S.fields, LAMBDA f : \A i \in DOMAIN SkelFields : SkelFields[i].num # f.num),
              mtvals |-> FieldDef(S, 35).vals,
              msgs |-> SubSeq(S.msgs, NSkelMsgs + 1, Len(S.msgs)), comps |-> S.comps, hist |-> hist]
 Export == /\ (hist = <<>> /\ ~done) => PrintT("SKEL " \o ToJson(Skeleton))
